@@ -12,6 +12,8 @@ pub enum Ty {
     Reg(u32),
     /// `Self::Register` / `R::Register` of a generic register dictionary
     GenReg,
+    /// `Self::RegisterMatrix` of a generic `TransposeMatrix` dictionary
+    GenRM,
     Dense(Box<Ty>),
     Dense4(Box<Ty>),
     Array(Box<Ty>, usize),
@@ -76,6 +78,7 @@ impl Ty {
             Ty::Scalar(s) => lean_scalar(s),
             Ty::Reg(b) => format!("(BitVec {b})"),
             Ty::GenReg => "Reg".into(),
+            Ty::GenRM => "RM".into(),
             Ty::Dense(t) => format!("(DenseLane {})", t.lean()),
             Ty::Dense4(t) => format!("(Dense4x4Lane {})", t.lean()),
             Ty::Array(t, _) => format!("(Slice {})", t.lean()),
